@@ -39,8 +39,10 @@ CHECKS = {
             CLIENT + "Theorems for all histories, all datastores, all faults: versions of timestamp/snapshot/listed-targets "
             "(resp. targets) never decrease between two successful cycles unless some cycle in between ended its root walk "
             "with a root that authorises the online roles (resp. targets) differently; pre-repair statement refuted (F5). "
-            "Known finding: root withholding (see known_findings.txt). Partial: the no-lock-out clause is checked by the "
-            "oracle on generated histories, not yet proved.", NOTE + MODELLED, "5/C03"),
+            "Known finding: root withholding (see known_findings.txt). No lock-out (C03_never_locked_out): after any "
+            "history, an uninterrupted cycle succeeds against every repository that is valid under the root its walk ends "
+            "with and not older than any document the datastore held or earlier cycles were served (delegated trees "
+            "included), with a non-vacuity example.", NOTE + MODELLED, "5/C03"),
     "C04": ("Coq proofs about the expiry/clock checks of the cycle and of read_target; correspondence with the clock moved "
             "through the verif-hooks offset",
             CLIENT + "Theorems: success under enforcement implies the final root, timestamp, snapshot and targets are unexpired; "
@@ -126,14 +128,18 @@ CHECKS = {
             "keep protecting (C03's invariant); correspondence over inflated versions up to 2^63",
             CLIENT + "Theorems: when the walk ends with a root whose timestamp or snapshot key list differs from the previously "
             "trusted root's, both stored files are gone before step 2 and no 'older metadata' refusal can follow from stored "
-            "timestamp/snapshot; otherwise C03's monotonicity holds.", NOTE + MODELLED, "5/C14"),
+            "timestamp/snapshot; otherwise C03's monotonicity holds; end to end (C14_recovery): after any history, once "
+            "nothing known verifies under the new root for timestamp and snapshot, every valid repository under it is "
+            "loaded whatever its timestamp/snapshot versions.", NOTE + MODELLED, "5/C14"),
     "C15": ("Coq proof: C03's invariant with an arbitrary fault (kill before/in/after, failed write) on any datastore write of "
             "any cycle; real processes with strace SIGKILL/ENOSPC injection at every datastore system call",
             "Theorems: rollback protection for all histories with all fault positions and kinds; a write is all-or-nothing "
             "with write-to-temporary-and-rename; truncate-and-write refuted (F9). Tied to the code by running the client in "
             "real processes under strace, killing it at every write/rename/unlink or failing the call with ENOSPC, then "
             "loading replayed-older and current repositories on copies of the datastore, and comparing with the model run on "
-            "the matching (operation, fault). Partial: 'never locked out after a fault' is checked by these runs, not proved.",
+            "the matching (operation, fault). Never locked out after a fault: every stored document was in the initial "
+            "datastore or was served to an earlier cycle, whatever was interrupted (C15_store_provenance), hence the next "
+            "uninterrupted cycle against a valid repository at least as new succeeds (C15_never_locked_out).",
             NOTE + " Process death only (page cache survives); rename(2) atomicity assumed.", "5/C15"),
     "C16": ("Coq proof of injectivity/plain-entry of the file-name function + exhaustive/random differential "
             "correspondence with DelegatedTargets::filename",
